@@ -41,8 +41,9 @@ const c35Namespace = "verif-ns"
 var c35Digest = core.DigestFixture()
 
 type c35Resp struct {
-	kind string // net | status | cut | full
-	n    int
+	kind    string // net | status | cut | full
+	n       int
+	chunked bool // no Content-Length: the body is streamed with chunked transfer encoding
 }
 
 func c35ParseScript(tok string) ([]c35Resp, bool) {
@@ -53,6 +54,14 @@ func c35ParseScript(tok string) ([]c35Resp, bool) {
 			out = append(out, c35Resp{kind: "net"})
 		case t == "full":
 			out = append(out, c35Resp{kind: "full"})
+		case t == "fullc":
+			out = append(out, c35Resp{kind: "full", chunked: true})
+		case strings.HasPrefix(t, "k"):
+			n, err := strconv.Atoi(t[1:])
+			if err != nil || n < 0 {
+				return nil, false
+			}
+			out = append(out, c35Resp{kind: "cut", n: n, chunked: true})
 		case strings.HasPrefix(t, "s"):
 			n, err := strconv.Atoi(t[1:])
 			if err != nil || n < 201 || n > 599 || n/100 == 3 {
@@ -125,6 +134,25 @@ func (o *c35Origin) ServeHTTP(w http.ResponseWriter, r *http.Request) {
 		}
 	case "cut", "full":
 		w.Header().Set("Content-Type", "application/octet-stream")
+		if resp.chunked {
+			// streamed like the origin's download handler: no Content-Length, chunked encoding
+			w.WriteHeader(200)
+			if resp.kind == "full" {
+				half := len(blob) / 2
+				w.Write(blob[:half])
+				w.(http.Flusher).Flush()
+				w.Write(blob[half:])
+				return
+			}
+			n := resp.n
+			if n > len(blob) {
+				n = len(blob)
+			}
+			w.Write(blob[:n])
+			w.(http.Flusher).Flush()
+			c35Drop(w) // before the terminating chunk, even if every body byte was sent
+			return
+		}
 		w.Header().Set("Content-Length", strconv.Itoa(len(blob)))
 		w.WriteHeader(200)
 		if resp.kind == "full" || resp.n >= len(blob) {
@@ -512,7 +540,7 @@ func TestVerif_C35(t *testing.T) {
 
 	// (a1) entry=cluster, bounded-exhaustive: every assignment of one response to each of up to
 	// n origins (without 202 an origin is asked once), for each destination kind.
-	alpha := []string{"net", "s404", "s503", "c0", "c2", "c5", "full", "s400"}
+	alpha := []string{"net", "s404", "s503", "c0", "c2", "c5", "full", "k0", "k1", "k2", "k4", "k5", "fullc"}
 	type dk struct {
 		kind, impl string
 		pre        []byte
@@ -524,7 +552,7 @@ func TestVerif_C35(t *testing.T) {
 	var rec func(prefix []string, n int)
 	rec = func(prefix []string, n int) {
 		for di, d := range dsts {
-			if di >= 2 && len(prefix) > 3 {
+			if (di >= 2 && len(prefix) > verifh.Scale(2, 3)) || (di == 1 && len(prefix) > verifh.Scale(2, 4)) {
 				continue
 			}
 			gen = append(gen, c35Case("cluster", d.kind, d.impl, d.pre, d.pos, blob, 0, "ok", prefix))
@@ -541,7 +569,7 @@ func TestVerif_C35(t *testing.T) {
 	rec(nil, maxN)
 
 	// (a2) entry=poll (scripted backoff, no sleeping): two origins, scripts up to length 2 incl. 202
-	alphaP := []string{"s202", "net", "s404", "s500", "c3", "full"}
+	alphaP := []string{"s202", "net", "s404", "s500", "c3", "full", "k3"}
 	var scripts []string
 	scripts = append(scripts, "-")
 	for _, a := range alphaP {
@@ -569,7 +597,7 @@ func TestVerif_C35(t *testing.T) {
 	}
 
 	// (a3) entry=cluster with 202 answers: these sleep in the real backoff (1 s, then 1.3 s), a few only
-	slowScripts := [][]string{{"s202,full"}, {"s202,c2", "full"}, {"c2", "s202,full"}, {"s202,net", "c3", "s202,c4", "full"},
+	slowScripts := [][]string{{"s202,fullc"}, {"s202,k5", "fullc"}, {"s202,full"}, {"s202,c2", "full"}, {"c2", "s202,full"}, {"s202,net", "c3", "s202,c4", "full"},
 		{"s202,s202,full"}, {"s202,s404", "full"}, {"c1", "s202,s503", "c5"}, {"s202", "full"}}
 	for i, sc := range slowScripts {
 		d := dsts[(i+1)%len(dsts)]
@@ -580,7 +608,7 @@ func TestVerif_C35(t *testing.T) {
 	r := verifh.NewRand(verifh.Seed(), "c35")
 	codes := []int{201, 202, 204, 400, 403, 404, 409, 416, 429, 499, 500, 501, 502, 503, 504, 599}
 	nslow := 0
-	for i := 0; i < verifh.Scale(1500, 40000); i++ {
+	for i := 0; i < verifh.Scale(1000, 40000); i++ {
 		var bl []byte
 		switch r.Intn(10) {
 		case 0:
@@ -639,9 +667,9 @@ func TestVerif_C35(t *testing.T) {
 						toks = append(toks, "s502")
 					}
 				case 4, 5, 6:
-					toks = append(toks, "c"+strconv.Itoa(r.Intn(len(bl)+2)))
+					toks = append(toks, r.Pick("c", "k")+strconv.Itoa(r.Intn(len(bl)+2)))
 				default:
-					toks = append(toks, "full")
+					toks = append(toks, r.Pick("full", "fullc"))
 				}
 			}
 			sc = append(sc, verifh.List(toks))
